@@ -71,7 +71,6 @@ func runC07(c *Ctx) {
 	c.Rule("C07.single", "target != \"*\" and Check(target) false => every path returns PermissionDenied with no go / registration / Send / Insert; every path that starts a goroutine for a single target contains an earlier Check of that target on the RPC's ACL")
 	c.Rule("C07.send-guard", "every invoke of the gRPC stream's Send/SendMsg in non-test code of package subscribe is (a) data-free: the argument is a package variable initialised once to a SyncResponse, or (b) guarded: on every path to the Send, the response's update prefix is nil or RPCACL.Check(prefix.GetTarget()) of that same response returned true on the stream client's ACL")
 	aclCheckSites(c, "C07.check-sites")
-	c.Rule("C07.resp-faithful", "MakeSubscribeResponse wraps the cached *Notification itself or a proto.Clone of it (a rebuilt message could drop the prefix that the send guard inspects)")
 	c.Rule("C07.acl-flow", "streamClient.acl is stored only inside Server.Subscribe")
 	c.Rule("C07.prefix-always", "Cache.GnmiUpdate returns an error for a nil prefix before dispatch; deleteNoti, metaNoti and toDeleteNotification build a non-nil Prefix with Target set")
 
@@ -278,34 +277,7 @@ func runC07(c *Ctx) {
 		}
 		c.Floor("C07.send-guard", nSend, 2)
 	}
-	// --- response faithful
-	{
-		c.Analysed(fnName(msr))
-		fUpd := P.Field("proto/gnmi", "SubscribeResponse_Update", "Update")
-		if fUpd == nil {
-			c.Unresolved("C07.resp-faithful", "proto/gnmi.SubscribeResponse_Update.Update")
-		} else {
-			n := 0
-			instrs(msr, func(in ssa.Instruction) {
-				st, ok := in.(*ssa.Store)
-				if !ok || fieldOf(st.Addr) != fUpd {
-					return
-				}
-				n++
-				srcs := valueSources(st.Val, 0, map[ssa.Value]bool{})
-				ok2 := len(srcs) > 0
-				var desc []string
-				for _, s := range srcs {
-					desc = append(desc, Expr(s))
-					if !notifFromParamOrClone(s, msr) {
-						ok2 = false
-					}
-				}
-				c.Check(ok2, "C07.resp-faithful", fnName(msr), "SubscribeResponse_Update.Update", P.Pos(in.Pos()), "wrapped notification comes from: "+strings.Join(desc, " | "))
-			})
-			c.Floor("C07.resp-faithful", n, 1)
-		}
-	}
+	respFaithful(c, "C07.resp-faithful")
 	// --- acl flow
 	{
 		n := 0
@@ -807,4 +779,44 @@ func aclCheckSites(c *Ctx, rule string) {
 		}
 	}
 	c.Floor(rule, n, 2)
+}
+
+// respFaithful (shared by C07 and C08; C01 and C04 borrow it from C07): the response handed to a
+// subscriber wraps the whole cached notification, or a clone of the whole of it.
+func respFaithful(c *Ctx, rule string) {
+	P := c.P
+	c.Rule(rule, "MakeSubscribeResponse wraps the cached *Notification itself or a proto.Clone of it (a message rebuilt field by field could drop the prefix that the send guard inspects, the other updates of an atomic group, or the atomic flag)")
+	msr := P.Method("subscribe", "Server", "MakeSubscribeResponse")
+	if msr == nil {
+		c.Unresolved(rule, "subscribe.(*Server).MakeSubscribeResponse")
+		return
+	}
+	// --- response faithful
+	{
+		c.Analysed(fnName(msr))
+		fUpd := P.Field("proto/gnmi", "SubscribeResponse_Update", "Update")
+		if fUpd == nil {
+			c.Unresolved(rule, "proto/gnmi.SubscribeResponse_Update.Update")
+		} else {
+			n := 0
+			instrs(msr, func(in ssa.Instruction) {
+				st, ok := in.(*ssa.Store)
+				if !ok || fieldOf(st.Addr) != fUpd {
+					return
+				}
+				n++
+				srcs := valueSources(st.Val, 0, map[ssa.Value]bool{})
+				ok2 := len(srcs) > 0
+				var desc []string
+				for _, s := range srcs {
+					desc = append(desc, Expr(s))
+					if !notifFromParamOrClone(s, msr) {
+						ok2 = false
+					}
+				}
+				c.Check(ok2, rule, fnName(msr), "SubscribeResponse_Update.Update", P.Pos(in.Pos()), "wrapped notification comes from: "+strings.Join(desc, " | "))
+			})
+			c.Floor(rule, n, 1)
+		}
+	}
 }
